@@ -5,7 +5,7 @@
 EXTENDS Dispatch_MC, Json
 
 VARIABLE hist
-mvars == <<content, tableOf, classMemo, idMemo, modNames, last, steps, hist>>
+mvars == <<content, tableOf, classMemo, idMemo, modNames, last, fresh, steps, hist>>
 
 TabJson(t) == [i \in Ids |-> t[i]]
 MInit == Init /\ hist = <<[act |-> "init", ta |-> TabJson(content["ta"]), tb |-> TabJson(content["tb"])]>>
@@ -18,7 +18,8 @@ MNext ==
      \/ \E p \in Parsers, i \in Ids :
           /\ FeedA(p, i)
           /\ hist' = Append(hist, [act |-> "feed", p |-> p, i |-> i, handler |-> last'.want.handler,
-                                   domain |-> last'.want.domain, helpers |-> [j \in Ids |-> j \in last'.want.helpers]])
+                                   domain |-> last'.want.domain, helpers |-> [j \in Ids |-> j \in last'.want.helpers],
+                                   pinned |-> last'.pinned])
 MSpec == MInit /\ [][MNext]_mvars
 Export == steps = MaxSteps => PrintT(<<"BEH", ToJson(hist)>>)
 =============================================================================
